@@ -130,6 +130,9 @@ pub fn specimen_cases(seed: u64) -> Vec<(String, ContCase, bool)> {
         ("loose-concat".into(), loose_case(&mut rng), true),
         // the same, the content packs numbered from 0 (a content pack may carry the id 0: the directory pack is not in that list)
         ("loose-zero-id".into(), { let mut c = loose_case(&mut rng); c.first_id = 0; c }, true),
+        // the same with pack ids 1, 7, 13 (holes between them) and every pack recorded with the name of the file it came from,
+        // which no longer exists once the packs are joined (the packs are found in the file at hand, by uuid)
+        ("loose-sparse-stale".into(), { let mut c = loose_case(&mut rng); c.id_gap = 5; c }, true),
         // separate files, the first extra content pack is unavailable (file removed): the present ones must still be checked
         ("twofiles-missing-extra".into(), missing_case(&mut rng), true),
     ]
@@ -155,7 +158,9 @@ fn loose_case(rng: &mut Rng) -> ContCase {
 
 pub fn build_specimen(name: &str, case: &ContCase, small: bool, dir: &Path) -> Result<Specimen, String> {
     std::fs::create_dir_all(dir).map_err(|e| e.to_string())?;
-    let created = if name == "loose-concat" || name == "loose-zero-id" {
+    let created = if name == "loose-sparse-stale" {
+        create_loose(case, dir, &|_, f| f.to_string(), Some("c.jbk"))?
+    } else if name == "loose-concat" || name == "loose-zero-id" {
         create_loose(case, dir, &|_, _| String::new(), Some("c.jbk"))?
     } else if name == "loose-dup-concat" {
         create_loose(case, dir, &|_, _| String::new(), Some("dup:c.jbk"))?
